@@ -11,6 +11,7 @@ Exception / BaseException subclasses / unpicklable exceptions, rerun_exceptions_
 from __future__ import annotations
 
 import random
+import threading
 
 from props import _sched_util as U
 
@@ -38,7 +39,6 @@ LEVEL_NOTE = (
 TECHNIQUE = "Lean 4 invariant proof over an adversarial state machine with failure injection + differential correspondence"
 ASSUMPTIONS = ["a task either returns its value or raises, deterministically per task (`fails`)"]
 TRUSTED = ["concurrent.futures / multiprocessing deliver completions and exceptions"]
-SIG_UNPICKLABLE = "mp:unpicklable-task-exception:replaced-by-pickling-error"
 
 
 def _dependents_closure(dag, roots):
@@ -86,12 +86,6 @@ def oracle_failure(ctx, out, inp, what="controlled"):
                      observed=str(err)[:200])
         return
     cls = U.classify_error(err)
-    if what == "mp" and cls[0] != "failed" and set(fails.values()) == {"Unpicklable"} and "pickle" in str(err):
-        # known finding: dask.multiprocessing.pack_exception replaces an exception it cannot serialise by the
-        # serialisation error, so type and message of the task's exception are lost
-        ctx.fail("multiprocessing: an unpicklable task exception surfaces as the pickling error (type and message lost)",
-                 sig=SIG_UNPICKLABLE, observed=f"{type(err).__name__}: {str(err)[:80]}", expected="UnpicklableBoom: boom-<k>")
-        return
     if cls[0] != "failed":
         ctx.fail(f"{what}: the call raised {type(err).__name__}: {err} instead of the task's exception",
                  observed=f"{type(err).__name__}: {str(err)[:150]}")
@@ -121,6 +115,17 @@ def case_trace(ctx, inp):
     oracle_failure(ctx, out, inp)
     real = out["real"]
     cls = U.classify_error(real["error"])
+    if cls[0] == "failed" and inp.get("rerun"):
+        # rerun_exceptions_locally=True: the failed task is executed a second time, in the scheduler's thread, on
+        # inputs read from the scheduler's cache - they must be the values the worker got
+        runs = [e for e in real["exec_log"] if e[0] == cls[1]]
+        if len(runs) != 2:
+            ctx.fail("rerun_exceptions_locally: the failed task was not executed exactly twice (worker + local rerun)",
+                     observed=len(runs), expected=2)
+        elif runs[0][1] != runs[1][1]:
+            ctx.fail("rerun_exceptions_locally: the local rerun got other input values than the worker",
+                     observed=list(runs[1][1]), expected=list(runs[0][1]))
+        ctx.branch("rerun_exceptions_locally")
     if cls[0] == "failed":
         ctx.branch("failed")
         if len(inp["fails"]) > 1:
@@ -206,7 +211,98 @@ def case_api(ctx, inp):
         ctx.branch("api:rerun_exceptions_locally")
 
 
-CASES = {"trace": case_trace, "exh": case_exh, "api": case_api}
+def _dyn_exc_class(spec):
+    """an exception class built at run time from a small spec (cloudpickle serialises such classes by value)"""
+    base = {"Exception": Exception, "BaseException": BaseException, "ValueError": ValueError, "KeyError": KeyError,
+            "OSError": OSError, "multi": (ValueError, KeyError)}[spec["base"]]
+    bases = base if isinstance(base, tuple) else (base,)
+    ns = {}
+    arity = spec["arity"]
+
+    if arity != "args":
+        def __init__(self, *a, **kw):
+            # the message never equals the constructor arguments: rebuilding by `cls(*self.args)` breaks
+            if arity == "two":
+                x, y = a
+                BaseException.__init__(self, f"boom-{x} {y}")
+            elif arity == "kw":
+                BaseException.__init__(self, f"boom-{kw['code']} kw")
+            else:                                   # "none": no argument at all
+                assert not a and not kw
+                BaseException.__init__(self, "boom-0 fixed")
+            for k, v in spec.get("attrs", {}).items():
+                setattr(self, k, threading.Lock() if v == "lock" else v)
+        ns["__init__"] = __init__
+    elif spec.get("attrs"):
+        def __init__(self, *a):
+            BaseException.__init__(self, *a)
+            for k, v in spec.get("attrs", {}).items():
+                setattr(self, k, threading.Lock() if v == "lock" else v)
+        ns["__init__"] = __init__
+    if spec.get("reduce_raises"):
+        def __reduce__(self):
+            raise TypeError("cannot pickle this exception")
+        ns["__reduce__"] = __reduce__
+    return type("Dyn" + spec["base"].title(), bases, ns)
+
+
+
+def case_remote(ctx, inp):
+    """what the multiprocessing scheduler does with a task's exception, in one process: worker side
+    `pack_exception(e, dumps)`, parent side `loads(...)` then `raise_exception(exc, tb)` (= `reraise` -> `remote_exception`).
+    The statement: the parent raises an exception of the same type (possibly a subclass) carrying the original message."""
+    import dask.multiprocessing as M
+    kid = inp.get("kid", 3)
+    if "spec" in inp:
+        cls = _dyn_exc_class(inp["spec"])
+        ar = inp["spec"]["arity"]
+        exc = cls(kid, "y") if ar == "two" else cls(code=kid) if ar == "kw" else cls() if ar == "none" else cls(f"boom-{kid}")
+        want = f"boom-{kid}" if ar != "none" else "boom-0"
+        sig = None
+    else:
+        exc = U.make_exc(inp["kind"], kid)
+        cls = type(exc)
+        want = f"boom-{kid}"
+    got = None
+    try:
+        try:
+            raise exc
+        except BaseException as e:
+            packed = M.pack_exception(e, M._dumps)
+        exc2, tb = M._loads(packed)
+        try:
+            M.reraise(exc2, tb)
+        except BaseException as e3:
+            if isinstance(e3, (KeyboardInterrupt, SystemExit)) or type(e3).__name__ == "CaseTimeout":
+                raise
+            got = e3
+    except Exception as e4:
+        ctx.fail("multiprocessing: transporting a task exception to the parent raised instead of yielding it "
+                 f"({type(e4).__name__}: {str(e4)[:80]})", observed=f"{type(e4).__name__}: {str(e4)[:100]}",
+                 expected=f"{cls.__name__}: {want}")
+        return
+    if got is None:
+        ctx.fail("multiprocessing: raise_exception did not raise", observed="no exception")
+        return
+    if not isinstance(got, cls):
+        ctx.fail("multiprocessing: the exception raised in the parent is not of the task exception's type "
+                 "(type and message lost)", observed=f"{type(got).__name__}: {str(got)[:100]}", expected=f"{cls.__name__}: {want}")
+    elif want not in str(got):
+        ctx.fail("multiprocessing: the exception raised in the parent lost the original message",
+                 observed=str(got)[:120], expected=want)
+    if type(got) is not cls:
+        ctx.branch("remote:wrapped-in-subclass")
+    else:
+        ctx.branch("remote:same-object-type")
+    ctx.branch("remote:" + (inp.get("kind") or "dyn:" + inp["spec"]["arity"]))
+    if "spec" in inp:
+        if inp["spec"].get("reduce_raises"):
+            ctx.branch("remote:dyn:reduce-raises")
+        if "lock" in inp["spec"].get("attrs", {}).values():
+            ctx.branch("remote:dyn:unpicklable-attribute")
+
+
+CASES = {"trace": case_trace, "exh": case_exh, "api": case_api, "remote": case_remote}
 
 
 def _with_fail(rng, max_n, kinds=("Boom", "Boom", "ValueError", "BaseBoom", "ZeroDivisionError"), nfail=(1, 1, 2, 3)):
@@ -228,16 +324,27 @@ def _with_fail(rng, max_n, kinds=("Boom", "Boom", "ValueError", "BaseBoom", "Zer
 def generate(ctx):
     rng = ctx.rng
     for _ in range(ctx.n(1500, 8000)):
-        yield "trace", _with_fail(rng, rng.choice([4, 7, 10, 14, 18]))
+        inp = _with_fail(rng, rng.choice([4, 7, 10, 14, 18]))
+        if rng.random() < 0.2:
+            inp["rerun"] = True
+        yield "trace", inp
     scheds = ["sync", "threaded", "threaded", "threadpool"]
     for _ in range(ctx.n(80, 1200)):
-        inp = _with_fail(rng, rng.choice([6, 12, 25]))
+        inp = _with_fail(rng, rng.choice([6, 12, 25]), kinds=("Boom", "Boom", "ValueError", "BaseBoom", "ZeroDivisionError") + U.EXOTIC_KINDS)
         yield "api", {"dag": inp["dag"], "req": inp["req"], "sched": rng.choice(scheds), "nw": rng.choice([1, 2, 4, 8]),
                       "cs": rng.choice([1, 2, 5, -1]), "fails": inp["fails"], "seed": rng.randrange(1 << 30),
                       "rerun": rng.choice([None, None, False, True])}
+    # the transport of a task exception from the worker process to the parent, function level, every kind
+    for kind in U.FAIL_KINDS:
+        yield "remote", {"kind": kind, "kid": rng.randrange(1, 50)}
+    for _ in range(ctx.n(60, 600)):
+        spec = {"base": rng.choice(["Exception", "Exception", "BaseException", "ValueError", "KeyError", "OSError", "multi"]),
+                "arity": rng.choice(["args", "two", "kw", "none"]), "reduce_raises": rng.random() < 0.2,
+                "attrs": {k: rng.choice([1, "s", [1, 2], "lock"]) for k in rng.sample(["a", "b", "c"], rng.randint(0, 2))}}
+        yield "remote", {"spec": spec, "kid": rng.randrange(1, 50)}
     for i in range(ctx.n(3, 12)):
-        inp = _with_fail(rng, rng.choice([5, 8]), kinds=("Boom", "ValueError", "Unpicklable"), nfail=(1,))
-        inp["dag"]["keys"] = rng.choice(["str", "tuple"])
+        inp = _with_fail(rng, rng.choice([5, 8]), kinds=("Boom", "ValueError") + U.EXOTIC_KINDS, nfail=(1,))
+        inp["dag"]["keys"] = rng.choice(["str", "tuple", "falsy"])
         yield "api", {"dag": inp["dag"], "req": inp["req"], "sched": "mp", "nw": 2, "cs": rng.choice([1, 6]),
                       "fails": inp["fails"], "seed": 0, "rerun": None}
     # every single failing task of every small dag, every completion order
@@ -248,7 +355,7 @@ def generate(ctx):
         for nodes in dags:
             tasks = [i for i, nd in enumerate(nodes) if nd[0] == "t"]
             for f in tasks:
-                dag = {"nodes": nodes, "keys": rng.choice(["str", "tuple", "int"]), "style": rng.choice(["legacy", "spec", "mixed"])}
+                dag = {"nodes": nodes, "keys": rng.choice(["str", "tuple", "int", "falsy"]), "style": rng.choice(["legacy", "spec", "mixed"])}
                 yield "exh", {"dag": dag, "req": list(range(n)), "nw": rng.choice([1, 2, 3]), "cs": rng.choice([1, 2, -1]),
                               "fails": {str(f): "Boom"}, "seed": 0, "bias": None, "limit": 200}
 
